@@ -194,8 +194,12 @@ def c08(run):
         "capacity()/len()/allocation_size() and allocator events recorded around every call and checked against the capacity contract on tombstoned states", corpus=True, goals=True)
 
 
+ITER_MODELS = [("MC_iter_w4.cfg", "MC_iter.tla", {"timeout": 300, "workers": 6}), ("MC_iter_w16s.cfg", "MC_iter.tla", {"timeout": 300, "workers": 6}),
+               ("MC_iter_w8s.cfg", "MC_iter.tla", {"timeout": 300, "workers": 4}), ("MC_iter_w2.cfg", "MC_iter.tla", {"timeout": 300, "workers": 6})]
+
+
 def c09(run):
-    return generic_check(run, [], [],
+    return generic_check(run, ITER_MODELS, [],
         [("iter", ["map:kv16:collide:40:1200:iter", "map:k4v4:zero:24:600:iter", "map:kv24:mixed:60:500:iter"]),
          ("iterset", ["set:k8t:collide:40:700:set", "set:k1:zero:30:500:set"])],
         [("iter2", ["map:kv16:onegroup:12:3000:iter", "map:kv200:fewpos:60:3000:iter", "map:kv16:max:40:3000:iter"]),
@@ -204,7 +208,7 @@ def c09(run):
 
 
 def c10(run):
-    return generic_check(run, [("MC_map_w2sel.cfg", "MC_map.tla", {"timeout": 300})], [],
+    return generic_check(run, [("MC_map_w2sel.cfg", "MC_map.tla", {"timeout": 300})] + ITER_MODELS[:2], [],
         [("sel", ["map:kv16:collide:40:1200:iter", "map:kv24:zero:24:700:iter"]),
          ("selset", ["set:k8t:collide:30:800:set", "table:te24:collide:24:600:table"]),
          ("selfault", ["map:kv16:collide:30:700:iter:fault=30,fclass=drop", "table:te24:zero:14:400:table:fault=25,fclass=drop",
